@@ -2265,6 +2265,17 @@ func (ex *Exec) envHook(what string) {
 	if !ok || cb == nil {
 		return
 	}
+	if len(ex.h.EnvAt) > 0 {
+		found := false
+		for _, w := range ex.h.EnvAt {
+			if w == what {
+				found = true
+			}
+		}
+		if !found {
+			return
+		}
+	}
 	ex.envDepth++
 	_, pan := ex.callAny(cb, nil, nil)
 	ex.envDepth--
